@@ -21,7 +21,8 @@ RULE = ("(1) Hypothesis stateful machine over the public ModelState/ClusterParam
         "at every phase boundary of traced end-to-end runs, where the listener keeps the live objects and re-compares them with "
         "their snapshots at the end of the run. Non-trivial (machine) = a history with a copy followed by a mutation of the copy "
         "or of the source; (traced) = >= 2 rounds; distinct by SHA-1 of the recorded history / case."
-        ' States may hold a read-only view of a live buffer; labellings of another length (shorter, longer, empty, same leading labels) are assigned to throw-away copies.')
+        ' States may hold a read-only view of a live buffer; labellings of another length (shorter, longer, empty, same leading labels) are assigned to throw-away copies.'
+        ' Mutations may break exact symmetry of a matrix; deep copies are also taken of states whose scalar hyper-parameters are 0-d arrays.')
 ASSUMPTIONS = ["in the operation machine the log-determinant is treated like inverse_covariance (a scoring value the labelling phase refreshes on its input); in traced runs it is compared",
                "in-place mutation is applied only to states that exclusively own their arrays (deep copies, or fresh-cluster copies nobody has derived a shallow copy from)",
                "inverse_covariance is a scoring alias that the labelling phase refreshes on its input before use; it is not part of 'fitted statistics'",
